@@ -7,6 +7,10 @@ import verif
 BIG = 1000000000
 WIDE, OVER = (1, 3, 7), (4, 5)
 FORMATS = {"ISO-8859-1": "latin-1", "UTF-8": "utf-8", "ASCII": "ascii", "UCS-2LE": "utf-16-le"}
+HTML_FONTS = [0, 1, 2, 3, 4, 5, 7, 16, 33]
+HTML_LANG = {0: "en", 16: "en", 1: "de", 33: "de", 2: "sv", 3: "it", 4: "fr", 5: "es", 7: None}
+HTML_TAG = re.compile(rb'</?[ubi]>|</span>|<span class="c\d+">|<span style="color:#[0-9a-f]{6};background-color:#[0-9a-f]{6}(; text-decoration: blink)?">')
+HTML_ENT = re.compile(rb'&lt;|&gt;|&amp;|&#(\d+);')
 MODULES = ["text", "text,charset=UTF-8", "text,format=2", "text,control=1", "text,gfx_chr=35", "html", "html,gfx_chr=35",
            "ppm", "ppm,aspect=0", "png", "png,aspect=0", "xpm", "xpm,aspect=0", "png,titled=0"]
 
@@ -71,28 +75,31 @@ def pages_of(case):
 class C16(verif.Spec):
     prop = "C16"
     comp = "export"
-    lean_modules = ["ZvbiModel.Props.C16"]
+    lean_modules = ["ZvbiModel.Props.C16", "ZvbiModel.Props.C16Html", "ZvbiModel.Props.C16Ppm", "ZvbiModel.Props.C16Font"]
     harness = "export_harness"
     harness_link_lib = True
     timeout_per_case = 5.0
-    partial_note = ("export write layer, vbi_print_page_region (table mode), the text export module and the byte runs of the two region "
-                    "renderers are modelled and proved (incl. region_equals_full with symbolic pixel values); html/png/xpm/ppm encoders, "
-                    "fonts and palettes are not modelled: target agreement and bounds for them are judged by the oracle on the real code; "
-                    "the ANSI control sequences of the text module are the model's transcription, tied to the code by correspondence")
-    assumptions = ["iconv is a stateless function of the UCS-2 code that writes at most the space it is given (no BOM, no //TRANSLIT)",
+    partial_note = ("export write layer, vbi_print_page_region (table mode), the text export module, the HTML export module (exp-html.c, without links) "
+                    "and the PPM writer (header, sizes, call sequence; pixel values symbolic) and the byte runs of the two region renderers are modelled "
+                    "and proved (incl. region_equals_full with symbolic pixel values); png/xpm encoders, fonts and palettes are not modelled: target "
+                    "agreement and bounds for them are judged by the oracle on the real code; the ANSI control sequences of the text module are the "
+                    "model's transcription, tied to the code by correspondence")
+    assumptions = ["html module: no cell has the link attribute (vbi_resolve_link is not modelled); iconv to the page charset yields one byte or fails",
+                   "iconv is a stateless function of the UCS-2 code that writes at most the space it is given (no BOM, no //TRANSLIT)",
                    "rowstride is -1 or a multiple of the pixel size with rowstride >= width * cell width * pixel size; canvas has the documented size",
                    "the region lies inside the page (documented precondition of the draw functions; the print function checks it itself)",
                    "sizes stay below SIZE_MAX/2 (overflow branches of the grow functions are not modelled)",
                    "glibc: realloc(p,0) frees; vsnprintf never returns < 0 for %s"]
     trusted_base = ["harness/export_harness.c + lean/Driver/Export.lean (correspondence: per-op offset/capacity/target trace of the write layer, "
-                    "print output bytes, canonical digest of the written byte runs of the renderers)",
+                    "print output bytes, canonical digest of the written byte runs of the renderers, byte-exact HTML documents, PPM header + size)",
+                    "translate/gen_export_html.py: Generated/ExportHtmlCfg.lean flags (H1 / H2 repaired?) come from probing the compiled code",
                     "translate/gen_export.py: Generated/ExportCfg.lean flags (F14 / F12 / F27a / F27b repaired?) come from probing the compiled code",
                     "fault injection in the harness (realloc limit inside _vbi_grow_vector_capacity, fopencookie / RLIMIT_FSIZE sinks) is used "
                     "for correspondence only: the property does not quantify over allocation / write failure, so such cases are never judged "
                     "by the oracle, and cases where the model predicts an abort (F26) are not run"]
     open_statements = []
     rule = ("cases from corpus + seeded generators (synthetic exporters with fault injection; random pages with enlarged, concealed, "
-            "DRCS cells; print / draw / export ops); non-trivial = the implementation produced at least one non-reject output")
+            "DRCS cells; attribute- and colour-heavy pages for the html module; print / draw / export / htmlexp / ppmexp ops); non-trivial = the implementation produced at least one non-reject output")
 
     def __init__(self):
         self._outlen = {}
@@ -208,8 +215,54 @@ class C16(verif.Spec):
         for _ in range(rng.randrange(0, 3)):
             ops.append("textexp %s %d %d" % (rng.choice(list(FORMATS)), rng.choice([35, 32, 46, 64, 10, 31, 0x2588, 0xE000, 0xE001, 99999, rng.randrange(10, 70000)]),
                                              rng.choice([0, 0, 1, 2])))
+        for _ in range(rng.choice([0, 0, 1, 2])):
+            ops.append(self.gen_htmlexp(rng, pg))
         if wellformed and rng.random() < (0.4 if tier == "quick" else 0.7):
             ops.append("export " + rng.choice(MODULES))
+        if wellformed and rng.random() < 0.25:
+            ops.append("ppmexp %d" % rng.randrange(2))
+        return ops
+
+    def gen_htmlexp(self, rng, pg=None):
+        """htmlexp <font> <gfx_chr> <color> <header> <reveal> <pgno> <subno> <screen>: gfx_chr is never one of < > & (low byte) here, and
+        caption page numbers (< 0x100) are used only by gen_html_known (the two known deviations have their own cases)"""
+        g = rng.choice([35, 35, 32, 46, 64, 0x2588, 0xE000, 0xE001, 99999, 12, rng.randrange(10, 70000)])
+        ge = 0x20 if g > 0xE000 or g < 0x20 else g
+        if ge % 256 in (0x3C, 0x3E, 0x26): g = 35
+        return "htmlexp %d %d %d %d %d %d %d %d" % (rng.choice(HTML_FONTS), g, rng.randrange(2), rng.randrange(2), rng.randrange(2),
+                                                    rng.choice([0x100, 0x1FF, 0x899, 0x8FF, 0x123]), rng.choice([0, 1, 0x3F7F, 0x79, 0x2359]), rng.randrange(40))
+
+    def gen_html_case(self, rng):
+        """pages that exercise the span / attribute state machine: few colours, many attribute changes, blanks, entities"""
+        rows, cols = rng.choice([(25, 40), (3, 8), (2, 5), (1, 1), (6, 12), (4, 40)])
+        ops = ["page %d %d 0x%x" % (rows, cols, rng.choice([0x20, 0x20, 0x41, 0xA0]))]
+        cols_fg = [rng.randrange(40) for _ in range(rng.choice([1, 2, 3]))]
+        cols_bg = [rng.randrange(40) for _ in range(rng.choice([1, 2, 3]))]
+        chars = [0x41, 0x20, 0x20, 0xA0, 0x3C, 0x3E, 0x26, 0x22, 0x40, 0xE9, 0x20AC, 0x100, 0x140, 0xEE21, 0xEF7F, 0xE600, 0xF000, 0xD800, 0, 9, 0xFFFF, 0xFF, 0x80]
+        dens = rng.choice([0.2, 0.6, 1.0])
+        for r in range(rows):
+            for c in range(cols):
+                if rng.random() < dens:
+                    fl = rng.choice([0, 0, 1, 2, 3, 4, 5, 6, 7, 8, 16, 12, 31]) if rng.random() < 0.7 else rng.randrange(32)
+                    ops.append("cell %d %d 0x%x %d %d %d %d 3" % (r, c, rng.choice(chars) if rng.random() < 0.9 else rng.randrange(0x10000),
+                                                                 rng.choice([0, 0, 0, 0, 1, 2, 3, 4, 5, 6, 7]), fl, rng.choice(cols_fg), rng.choice(cols_bg)))
+        for _ in range(rng.randrange(1, 4)): ops.append(self.gen_htmlexp(rng))
+        return ops
+
+    def gen_g1_case(self, rng):
+        """G1: an italic Cyrillic small letter U+0440..U+045F: its slanted glyph would be row 48 of the 48-row font image"""
+        rows, cols = rng.choice([(25, 40), (2, 40)])
+        r, c = rng.randrange(rows), rng.randrange(cols)
+        ops = ["page %d %d 0x41" % (rows, cols), "cell %d %d 0x%x %d 4 7 0 3" % (r, c, rng.randrange(0x440, 0x460), rng.choice([0, 0, 2, 6]))]
+        fmt = rng.choice(["rgba", "pal8"])
+        ops.append("draw vt %s -1 0 %d %d 1 1 1" % (fmt, r, cols))
+        return ops
+
+    def gen_html_known(self, rng, which, g=60):
+        """the two known deviations of exp-html.c (H1 caption title, H2 gfx_chr not escaped); disappear once repaired"""
+        ops = ["page 2 3 0x41", "cell 0 1 0xee21 0 0 7 0 3"]
+        if which == "H1": ops.append("htmlexp 0 35 %d 1 0 %d 0 0" % (rng.randrange(2), rng.choice([1, 8, 0xFF])))
+        else: ops.append("htmlexp 0 %d %d %d 0 256 0 0" % (g, rng.randrange(2), rng.randrange(2)))
         return ops
 
     def gen_f14_case(self, rng):
@@ -230,7 +283,7 @@ class C16(verif.Spec):
 
     def gen_cases(self, rng, tier):
         N = 2 if tier == "quick" else 10
-        cases = [["consts", "probe"]]
+        cases = [["consts", "probe", "probehtml"]]
         for _ in range(700 * N): cases.append(self.gen_write_case(rng, "plain"))
         for _ in range(60 * N): cases.append(self.gen_write_case(rng, "big"))
         fault = [self.gen_write_case(rng, "fault") for _ in range(500 * N)]
@@ -245,6 +298,10 @@ class C16(verif.Spec):
         self.extra_coverage = {"fault_injection_cases_skipped_model_predicts_abort": self.skipped_model_abort}
         for _ in range(500 * N): cases.append(self.gen_page_case(rng, tier))
         for _ in range(3): cases.append(self.gen_f14_case(rng))
+        for _ in range(60 * N): cases.append(self.gen_html_case(rng))
+        for _ in range(2): cases.append(self.gen_g1_case(rng))
+        for w in ("H1", "H1"): cases.append(self.gen_html_known(rng, w))
+        for g in (60, 62, 38, 0x13C, 0x226): cases.append(self.gen_html_known(rng, "H2", g))
         # F12 shapes (repaired): NULL buffer size query; empty write into a NULL buffer
         cases.append(["begin mem null %d %d" % (BIG, BIG), "write 414243", "end"])
         cases.append(["begin alloc 0 %d %d" % (BIG, BIG), "write -", "putc 65", "end"])
@@ -344,6 +401,16 @@ class C16(verif.Spec):
             elif t[0] == "textexp" and line.startswith("ok") and pg is not None:
                 w = self.oracle_text(pg, t, line)
                 if w: return w
+            elif t[0] == "ppmexp" and line.startswith("ok") and pg is not None:
+                if line == "ok fail": return "ppm export failed"
+                f = line.split(); n = int(f[1]); hdr = unhx(f[2][4:])
+                cw, lines = (16, 26 if t[1] == "1" else 13) if pg.cols < 40 else (12, 20 if t[1] == "1" else 10)
+                if hdr != b"P6 %d %d 255\n" % (cw * pg.cols, lines * pg.rows): return "ppm: header is not P6 <width> <height> 255"
+                if n != len(hdr) + 3 * cw * pg.cols * lines * pg.rows: return "ppm: size is not header + 3 * width * height"
+                if f[3] != "px=1": return "ppm: pixels are not the rendered rows in R G B order"
+            elif t[0] == "htmlexp" and line.startswith("ok") and pg is not None:
+                w = self.oracle_html(pg, t, line)
+                if w: return w
             elif t[0] == "draw" and line.startswith("ok n="):
                 f = dict(kv.split("=") for kv in line.split()[1:])
                 cc = t[1] == "cc"; cw, ch = (16, 26) if cc else (12, 10)
@@ -384,6 +451,58 @@ class C16(verif.Spec):
         if data != exp: return "text export (control=%d): output differs from the page text" % ctl
         return None
 
+    def oracle_html(self, pg, t, line):
+        """the html module: between <pre> and </pre>, after removing the tags and decoding the entities, exactly the page's characters row by
+        row (graphics -> gfx_chr, not printable -> space, not in the page charset -> numeric entity); no raw < > & in character data; every
+        kind of tag opened and closed alternately and closed at the end; the header's tags complete.  Independent of the Lean model."""
+        font, g, color, header, reveal, pgno, subno, screen = [int(x) for x in t[1:9]]
+        if line == "ok fail": return "html export failed"
+        data = unhx(line.split()[2])
+        gfx = 0x20 if g < 0x20 or g > 0xE000 else g
+        a, b = data.find(b"<pre>"), data.rfind(b"</pre>")
+        if a < 0 or b < a: return "html: no <pre> ... </pre>"
+        head, body, tail = data[:a], data[a + 5:b], data[b + 6:]
+        if header:
+            if not head.startswith(b"<!DOCTYPE HTML PUBLIC") or tail != b"\n</body>\n</html>\n": return "html: header / footer missing"
+            if b"</title>" not in head or head.count(b"<title") != 1: return "html: title element is not opened with '<title'"
+            for tag in (b"html", b"head", b"body"):
+                if head.count(b"<" + tag) != 1: return "html: header element missing"
+            lang = HTML_LANG[font]
+            if (b'<body lang="' + lang.encode() + b'" ' if lang else b"<body text=") not in head: return "html: body language attribute"
+            want = ("Closed Caption" if pgno < 0x100 else "Teletext Page %3x" % pgno + ("" if subno == 0x3F7F else ".%x" % subno)).encode()
+            if (b">" + want + b"</title>") not in head: return "html: page title text"
+        elif head or tail != b"\n": return "html: header=0 but data outside <pre> ... </pre>"
+        toks, pos, depth = [], 0, {b"span": 0, b"u": 0, b"b": 0, b"i": 0}
+        while pos < len(body):
+            ch = body[pos:pos + 1]
+            if ch == b"<":
+                m = HTML_TAG.match(body, pos)
+                if not m: return "html: raw '<' in character data"
+                tg = m.group(0); kind = tg.strip(b"</>").split(b" ")[0]
+                depth[kind] += -1 if tg.startswith(b"</") else 1
+                if depth[kind] not in (0, 1): return "html: tag opened twice or closed without being open"
+                pos = m.end()
+            elif ch == b"&":
+                m = HTML_ENT.match(body, pos)
+                if not m: return "html: raw '&' in character data"
+                e = m.group(0)
+                toks.append(("u", int(m.group(1))) if m.group(1) else ("b", {b"&lt;": 0x3C, b"&gt;": 0x3E, b"&amp;": 0x26}[e]))
+                pos = m.end()
+            elif ch == b">": return "html: raw '>' in character data"
+            else: toks.append(("b", body[pos])); pos += 1
+        if any(depth.values()): return "html: tag not closed before </pre>"
+        exp = []
+        for r in range(pg.rows):
+            for c in range(pg.cols):
+                u, s, fl = pg.get(r, c)
+                if s > 3 or ((fl >> 4) & 1 and not reveal) or u == 0xA0: u = 0x20      # a no-break space is written as a space
+                if u < 0xE600: exp.append(("b", u) if u < 256 else ("u", u))
+                elif 0xEE00 <= u <= 0xEFFF: exp.append(("b", gfx % 256))
+                else: exp.append(("b", 0x20))
+            exp.append(("b", 10))
+        if toks != exp: return "html: text differs from the page's characters"
+        return None
+
     def print_diff(self, pg, fmt, col, row, w, h, data, exp):
         """classify the known deviation: print_unicode() takes an encoding starting with '@' for a failed conversion"""
         codec = FORMATS[fmt]; sp = " ".encode(codec); pos = 0; seen = False
@@ -422,12 +541,23 @@ class C16(verif.Spec):
             i, t, pg = self.crashed_op(case)
             if ("heap-buffer-overflow" in what or "ABORTING" in what) and self.f14_shape(t, pg):
                 return "F14:wide-character-in-last-column-drawn-24px"
+            if "global-buffer-overflow" in what and "draw_char" in what and pg is not None and t and t[0] in ("draw", "export", "ppmexp") \
+                    and any(0x440 <= pg.get(r, c)[0] <= 0x45F and (pg.get(r, c)[2] >> 2) & 1 for r in range(pg.rows) for c in range(pg.cols)):
+                return "G1:italic-cyrillic-glyph-outside-font-image"
             if "null pointer passed as argument" in what and t and t[0] == "end":
                 return "F12:memcpy-null-pointer-size-0"
             return re.sub(r"\d+", "N", what)[:160]
         if what == "render writes outside the region rectangle":
             for i, t, pg in pages_of(case):
                 if t[0] == "draw" and self.f14_shape(t, pg): return "F14:wide-character-in-last-column-drawn-24px"
+        if what.startswith("html: title element is not opened"):
+            for i, t, pg in pages_of(case):
+                if t[0] == "htmlexp" and len(t) == 9 and t[6].isdigit() and int(t[6]) < 0x100: return "H1:html-caption-title-tag-lacks-lt"
+        if what.startswith("html: raw '") or what == "html: text differs from the page's characters":
+            for i, t, pg in pages_of(case):
+                if t[0] == "htmlexp" and len(t) == 9 and t[2].isdigit() and int(t[2]) <= 0xE000 and int(t[2]) % 256 in (0x3C, 0x3E, 0x26) \
+                        and pg is not None and any(0xEE00 <= pg.get(r, c)[0] <= 0xEFFF for r in range(pg.rows) for c in range(pg.cols)):
+                    return "H2:html-gfx-chr-not-escaped"
         if what.startswith("print: output differs from the page text (at-sign"):
             return "F27b:print-unicode-at-sign-heuristic-replaces-character"
         if what.startswith("print: buffer too small but nonzero result"):
